@@ -12,7 +12,7 @@ use serde_json::{json, Value};
 pub fn meta() -> Meta {
     Meta {
         level: "exploration",
-        rule: "(a) every malformed lexeme generated from the reference definition of its class (unterminated strings and bit strings over 9 body atoms up to 2 atoms, unterminated nested block comments up to 3 atoms, base prefixes without digits, exponent markers without digits over 7 mantissas x sign x underscores, malformed version headers, identifiers with a forbidden character) spliced at every position of every sequence of at most 2 tokens over the full token alphabet (unterminated forms only last); (b,c) every sequence of at most 3 tokens over the token alphabet with text-dependent and malformed variants, through parse_check_lex and the full pipeline; each case enumerated once; non-trivial = splice cases with at least one neighbouring token, pipeline cases with at least one statement node; outcomes = distinct (gating decision, diagnostic counts) observations",
+        rule: "(a) every malformed lexeme generated from the reference definition of its class (unterminated strings and bit strings over 9 body atoms up to 2 atoms, unterminated nested block comments up to 3 atoms, base prefixes without digits, exponent markers without digits over 7 mantissas x sign x underscores, malformed version headers, identifiers with a forbidden character) spliced at every position of every sequence of at most 2 tokens over the full token alphabet (unterminated forms only last); (b,c) every sequence of at most 3 tokens over the token alphabet with text-dependent and malformed variants, through parse_check_lex and the full pipeline; the file-system configurations of C18 with one directory and three files (faults in files included directly and through another file); each case enumerated once; non-trivial = splice cases with at least one neighbouring token, pipeline cases with at least one statement node; outcomes = distinct (gating decision, diagnostic counts) observations",
         assumptions: vec![
             "pipeline cases on which semantic analysis panics are C03's business and are skipped here (counted)",
             "the bare word OPENQASM (no white space after it) is a keyword for the lexer, so only header forms with white space count as malformed version headers",
@@ -377,6 +377,9 @@ pub fn spaces(tier: Tier, _seed: u64) -> Vec<Box<dyn Space>> {
         v.push(Box::new(Splice { e }));
     }
     v.push(Box::new(Alone { depth: if tier.is_thorough() { 4 } else { 3 } }));
+    // "the source or any included file": real included files (with syntax and lexical faults at
+    // include depth 1 and 2) under C18's gating oracle
+    v.push(Box::new(crate::props::c18::Configs { ndirs: 1, nfiles: 3 }));
     v.push(crate::props::c01::tok_space(true, if tier.is_thorough() { 3 } else { 2 }, Render::Spaced, gating_oracle));
     v.push(crate::props::c01::tok_space(false, 3, Render::Tight, gating_oracle));
     v
